@@ -135,10 +135,20 @@ def expected_path(chain, path):
 
 
 def expected_pairs(params):
+    """params: None, a mapping, or a sequence of (name, value) pairs (the only way to repeat a name)."""
     if not params:
         return []
     items = params.items() if isinstance(params, dict) else params
-    return sorted((str(k), str(v)) for k, v in items)
+    return [(str(k), str(v)) for k, v in items]
+
+
+def group_pairs(pairs):
+    """{name: [values in the order given]} — the order among different names carries no meaning, the order
+    of the values of one name does."""
+    out = {}
+    for k, v in pairs:
+        out.setdefault(k, []).append(v)
+    return out
 
 
 def expected_auth(chain):
@@ -212,11 +222,10 @@ def compare_request(family, chain, verb, path, params, data, headers, obs):
             out.append(("url", "address and path are glued together without a slash", url, addr + want_path))
         elif norm_path(ppart) != want_path:
             out.append(("url", "path (with prefixes) differs", norm_path(ppart), want_path))
-        got_pairs = sorted(parse_qsl(query, keep_blank_values=True, strict_parsing=False)) if query else []
-        if "?" in rest and not query and not params:
-            got_pairs = []
-        if got_pairs != expected_pairs(params):
-            out.append(("query", "url-encoded params differ", got_pairs, expected_pairs(params)))
+        got_pairs = parse_qsl(query, keep_blank_values=True, strict_parsing=False) if query else []
+        if group_pairs(got_pairs) != group_pairs(expected_pairs(params)):
+            out.append(("query", "url-encoded params differ (every pair must arrive, values of one name in order)",
+                        got_pairs, expected_pairs(params)))
         if urlsplit(url).fragment:
             out.append(("url", "unexpected fragment", url, None))
     # ---- method ------------------------------------------------------------------------------
@@ -306,6 +315,8 @@ def selftest():
     b = g.wrap(a, [["prefix", "/out"], ["resp", "out"]], "wrap-list")
     assert expected_path(g.chain(b), "/x") == "/in/out/x"
     assert expected_response(g.chain(b), 1) == ["resp", "out", ["resp", "in", 1]]
+    assert group_pairs(expected_pairs([("tag", "red"), ("tag", "blue"), ("limit", 5)])) == \
+        {"tag": ["red", "blue"], "limit": ["5"]} != group_pairs(expected_pairs({"tag": "blue", "limit": 5}))
     assert expected_leaf("", False) == (True, "") and expected_leaf("null", False) == (True, None)
     assert expected_leaf("oops", False)[0] is False and expected_leaf("oops", True) == (True, RAW)
     assert expected_response(g.chain(b), "") == ["resp", "out", ["resp", "in", ""]]
